@@ -37,6 +37,7 @@ class _Code(object):
         self.writes[self.pos] = b
         self.pos += len(to_cells(b))
     def skip_to_read(self, rng):
+        self.scans = getattr(self, 'scans', []) + [(self.pos, rng)]
         return b''
 
 
@@ -87,6 +88,9 @@ def t_program_renum(E, shape, defaults):
         return
     E.cover('accepted')
     E.prove(not overwrite and not too_big, 'must be rejected')
+    scans = getattr(p.bytecode, 'scans', [])
+    E.prove(len(scans) >= 1 and scans[0][0] == 0 and tk.T_UINT in scans[0][1],
+            'the scan for line-number references starts at the beginning of the program (every reference is examined)')
     m = r.value
     E.prove(sorted(m.keys()) == moved, 'exactly the lines from `old` onward are renumbered')
     for i, k in enumerate(moved):
